@@ -10,6 +10,10 @@ pub struct Var {
     pub ty: Ty,
     /// a `&mut` reference to one of several places of a local, selected by a match (`let r = match side { A => &mut s.x, B => &mut s.y }`)
     pub alias: Option<Alias>,
+    /// may be assigned: `let mut`, `mut` parameter, `&mut` parameter, `self` of a `&mut self` / `mut self` method.  Rust demands
+    /// `mut` for every by-value local that is written, so a write to a variable that is not `mutable` goes through a
+    /// reference binding (`let S { a, b } = self`, default binding modes) - which this translator does not model: fail closed
+    pub mutable: bool,
 }
 
 #[derive(Clone, Debug)]
@@ -17,12 +21,19 @@ pub struct Alias {
     /// the Coq scrutinee and the Coq patterns of the selecting match (a single arm with pattern `_` for a plain `&mut place`)
     pub scrut: String,
     pub arms: Vec<(String, Vec<Member>)>,
-    /// the local variable all places are rooted in
+    /// the local variable all places are rooted in: its Rust name (for messages), its Coq name and type (the alias keeps
+    /// pointing at THIS variable even if the Rust name is shadowed later)
     pub root: String,
+    pub root_coq: String,
+    pub root_ty: Ty,
 }
 
 pub fn var(coq: String, ty: Ty) -> Var {
-    Var { coq, ty, alias: None }
+    Var { coq, ty, alias: None, mutable: false }
+}
+
+pub fn var_mut(coq: String, ty: Ty, mutable: bool) -> Var {
+    Var { coq, ty, alias: None, mutable }
 }
 
 #[derive(Clone, Default, Debug)]
@@ -87,6 +98,12 @@ pub struct Tr<'a> {
     pub aux_defs: Vec<String>,
     /// type arguments of the turbofish of the call being translated (for callees with `assoc_params`)
     pub turbofish_types: Option<Vec<String>>,
+    /// monomorphic instance (`inst=P:Type`): configured type -> the trait bounds of the parameter it instantiates; a
+    /// method call on a value of that type means the method of one of those traits (never an inherent method)
+    pub inst_traits: BTreeMap<String, BTreeSet<String>>,
+    /// Coq names of `self` and of the `&mut` parameters (what the function returns as their final values)
+    pub self_coq: String,
+    pub mut_param_coq: Vec<String>,
 }
 
 pub fn lit(n: i128) -> String {
@@ -169,16 +186,47 @@ pub fn conv_ty(t: &Type, adts: &dyn Fn(&str) -> Option<Ty>, generics: &BTreeSet<
                 Ok(Ty::Tuple(tt.elems.iter().map(|x| conv_ty(x, adts, generics, self_ty)).collect::<R<Vec<_>>>()?))
             }
         }
+        Type::TraitObject(to) => {
+            // `dyn Trait` where `Trait` is configured as an `extern` type (its methods are Coq functions of the value)
+            for b in to.bounds.iter() {
+                if let TypeParamBound::Trait(tb) = b {
+                    if let Some(s) = tb.path.segments.last() {
+                        if let Some(t) = adts(&s.ident.to_string()) {
+                            if matches!(t, Ty::Extern(_)) {
+                                return Ok(t);
+                            }
+                        }
+                    }
+                }
+            }
+            Err(unsupported(t, "trait object type (only `dyn Trait` for a trait configured with an `extern` line)"))
+        }
+        Type::Infer(_) => Ok(Ty::Infer),
+        Type::BareFn(f) => {
+            let mut a = vec![];
+            for i in f.inputs.iter() {
+                a.push(conv_ty(&i.ty, adts, generics, self_ty)?);
+            }
+            let r = match &f.output {
+                ReturnType::Default => Ty::Unit,
+                ReturnType::Type(_, t) => conv_ty(t, adts, generics, self_ty)?,
+            };
+            Ok(Ty::Fn(a, Box::new(r)))
+        }
         Type::Array(a) => {
             // [T; N] with a literal N is modelled as the N-tuple
+            let e = conv_ty(&a.elem, adts, generics, self_ty)?;
             let n = match &a.len {
                 Expr::Lit(ExprLit { lit: Lit::Int(i), .. }) => i.base10_parse::<usize>().map_err(|e| e.to_string())?,
-                _ => return Err(unsupported(t, "array type whose length is not a literal")),
+                // a length that is not a literal (a const generic, `SIZE * SIZE`): the array is a list, like a slice
+                _ => return Ok(Ty::Slice(Box::new(e))),
             };
-            if n < 2 || n > 8 {
-                return Err(unsupported(t, "array type of length < 2 or > 8"));
+            if n < 2 {
+                return Err(unsupported(t, "array type of length < 2"));
             }
-            let e = conv_ty(&a.elem, adts, generics, self_ty)?;
+            if n > 8 {
+                return Ok(Ty::Slice(Box::new(e)));
+            }
             Ok(Ty::Tuple(vec![e; n]))
         }
         Type::Path(p) if p.qself.is_none() => {
@@ -197,11 +245,43 @@ pub fn conv_ty(t: &Type, adts: &dyn Fn(&str) -> Option<Ty>, generics: &BTreeSet<
             if let Some(i) = IntTy::from_name(&name) {
                 return Ok(Ty::Int(Some(i)));
             }
+            if name == "char" && p.path.segments.len() == 1 {
+                // a `char` is its code point
+                return Ok(Ty::Int(Some(IntTy::U32)));
+            }
+            if p.path.segments.len() == 2 && p.path.segments[0].ident == "Self" && matches!(seg.arguments, PathArguments::None) {
+                // `Self::Assoc` where the impl says `type Assoc = <integer type>;`
+                if let Some(t) = adts(&format!("Self::{}", name)) {
+                    return Ok(t);
+                }
+            }
             if !matches!(seg.arguments, PathArguments::None) {
                 // a configured monomorphic instance of a generic struct (`MajorMinor<i32>`)
                 let full: String = quote::ToTokens::to_token_stream(seg).to_string().chars().filter(|c| !c.is_whitespace()).collect();
                 if let Some(t) = adts(&full) {
                     return Ok(t);
+                }
+                // the same with the type arguments reduced to their configured keys, lifetimes dropped
+                // (`SubImage<'_, ImageRaw<BinaryColor>>` -> `SubImage<ImageRaw>`)
+                if let PathArguments::AngleBracketed(a) = &seg.arguments {
+                    let mut keys = vec![];
+                    let mut ok = true;
+                    for g in a.args.iter() {
+                        match g {
+                            GenericArgument::Lifetime(_) => {}
+                            GenericArgument::Type(x) => match conv_ty(x, adts, generics, self_ty) {
+                                Ok(Ty::Adt(k)) => keys.push(k),
+                                Ok(Ty::Int(Some(i))) => keys.push(i.name().to_string()),
+                                _ => ok = false,
+                            },
+                            _ => ok = false,
+                        }
+                    }
+                    if ok && !keys.is_empty() {
+                        if let Some(t) = adts(&format!("{}<{}>", name, keys.join(","))) {
+                            return Ok(t);
+                        }
+                    }
                 }
             }
             if p.path.segments.len() >= 2 && matches!(seg.arguments, PathArguments::None) {
@@ -251,6 +331,8 @@ struct EffVisitor<'m> {
     mut_methods: &'m BTreeSet<String>,
     fuel_names: &'m BTreeSet<String>,
     mutarg_names: &'m BTreeSet<String>,
+    /// identifier of the current `Self` type
+    self_name: Option<String>,
 }
 
 impl<'m> EffVisitor<'m> {
@@ -270,10 +352,21 @@ impl<'m> EffVisitor<'m> {
     }
 }
 
+/// `R::load::<O>` -> "R::load::<O>" (the generic arguments are part of the identity of the item)
+pub fn generic_item_key(p: &Path) -> String {
+    let mut k = p.segments.iter().map(|s| s.ident.to_string()).collect::<Vec<_>>().join("::");
+    if let PathArguments::AngleBracketed(a) = &p.segments.last().unwrap().arguments {
+        let t: String = quote::ToTokens::to_token_stream(&a.args).to_string().chars().filter(|c| !c.is_whitespace()).collect();
+        k.push_str(&format!("::<{}>", t));
+    }
+    k
+}
+
 pub fn place_root(e: &Expr) -> Option<String> {
     match e {
         Expr::Path(p) if p.path.segments.len() == 1 => Some(p.path.segments[0].ident.to_string()),
         Expr::Field(f) => place_root(&f.base),
+        Expr::Index(ix) => place_root(&ix.expr),
         Expr::Paren(p) => place_root(&p.expr),
         Expr::Group(p) => place_root(&p.expr),
         Expr::Unary(u) if matches!(u.op, UnOp::Deref(_)) => place_root(&u.expr),
@@ -323,7 +416,23 @@ impl<'ast, 'm> Visit<'ast> for EffVisitor<'m> {
                 self.eff.assigned.insert(r);
             }
         }
-        if self.fuel_names.contains(&n) {
+        if n == "inspect" {
+            // `opt.inspect(|_| { statements })` runs the statements
+            for a in i.args.iter() {
+                if let Expr::Closure(c) = a {
+                    self.visit_expr(&c.body);
+                }
+            }
+        }
+        if n == "copy_from_slice" {
+            // `x[a..b].copy_from_slice(..)` / `x.copy_from_slice(..)` write x
+            let mut r: &Expr = &i.receiver;
+            while let Expr::Index(ix) = r {
+                r = &ix.expr;
+            }
+            self.eff.assigned.insert(place_root(r).unwrap_or_else(|| "<complex place>".into()));
+        }
+        if self.fuel_names.contains(&n) || (n == "last" && i.args.is_empty()) {
             self.eff.ret = true;
         }
         self.mutargs(&n, i.args.iter());
@@ -337,6 +446,8 @@ impl<'ast, 'm> Visit<'ast> for EffVisitor<'m> {
                 let hit = if segs.len() >= 2 && segs[segs.len() - 2] != "Self" {
                     // `Type::name`: only a fuelled function of that type
                     self.fuel_names.contains(&format!("{}::{}", segs[segs.len() - 2], n))
+                } else if segs.len() >= 2 && self.self_name.is_some() {
+                    self.fuel_names.contains(&format!("{}::{}", self.self_name.as_ref().unwrap(), n))
                 } else {
                     self.fuel_names.contains(&n)
                 };
@@ -368,7 +479,21 @@ impl<'ast, 'm> Visit<'ast> for EffVisitor<'m> {
     fn visit_expr_continue(&mut self, _i: &'ast ExprContinue) {
         self.eff.ret = true;
     }
-    fn visit_expr_closure(&mut self, _i: &'ast ExprClosure) {}
+    fn visit_expr_closure(&mut self, i: &'ast ExprClosure) {
+        // closures are translated as pure functions; the only writes looked for inside are the mutable sub-slice chains
+        struct G<'e>(&'e mut BTreeSet<String>);
+        impl<'ast, 'e> Visit<'ast> for G<'e> {
+            fn visit_expr_method_call(&mut self, m: &'ast ExprMethodCall) {
+                if m.method == "get_mut" {
+                    if let Some(r) = place_root(&m.receiver) {
+                        self.0.insert(r);
+                    }
+                }
+                visit::visit_expr_method_call(self, m);
+            }
+        }
+        G(&mut self.eff.assigned).visit_expr_closure(i);
+    }
     fn visit_item(&mut self, _i: &'ast Item) {}
 }
 
@@ -393,12 +518,12 @@ impl<'a> Tr<'a> {
     }
 
     pub fn effects_expr(&self, e: &Expr) -> Eff {
-        let mut v = EffVisitor { eff: Eff::default(), mut_methods: &self.mut_methods, fuel_names: &self.fuel_names, mutarg_names: &self.mutarg_names };
+        let mut v = EffVisitor { eff: Eff::default(), mut_methods: &self.mut_methods, fuel_names: &self.fuel_names, mutarg_names: &self.mutarg_names, self_name: self.self_ty.as_deref().map(|s| s.rsplit('.').next().unwrap().split('<').next().unwrap().to_string()) };
         v.visit_expr(e);
         v.eff
     }
     pub fn effects_stmts(&self, s: &[Stmt]) -> Eff {
-        let mut v = EffVisitor { eff: Eff::default(), mut_methods: &self.mut_methods, fuel_names: &self.fuel_names, mutarg_names: &self.mutarg_names };
+        let mut v = EffVisitor { eff: Eff::default(), mut_methods: &self.mut_methods, fuel_names: &self.fuel_names, mutarg_names: &self.mutarg_names, self_name: self.self_ty.as_deref().map(|s| s.rsplit('.').next().unwrap().split('<').next().unwrap().to_string()) };
         for x in s {
             v.visit_stmt(x);
         }
@@ -432,8 +557,18 @@ impl<'a> Tr<'a> {
                 if n == "None" {
                     return Ok("None".into());
                 }
+                if i.by_ref.is_some() {
+                    return Err(unsupported(p, "`ref` / `ref mut` binding (reference bindings are not modelled)"));
+                }
+                // an identifier pattern that names a const / unit struct / glob-imported variant is NOT a binder in Rust
+                if n.chars().next().map(|c| c.is_uppercase()).unwrap_or(false)
+                    || self.t.consts.iter().any(|c| c.key == n || c.key.ends_with(&format!("::{}", n)))
+                    || self.t.file_defs.get(&self.cur_file).map(|d| d.consts.contains(&n)).unwrap_or(false)
+                {
+                    return Err(unsupported(p, &format!("identifier pattern `{}` that may name a constant or an enum variant (write the path, e.g. `Enum::{}`)", n, n)));
+                }
                 let c = self.fresh(&n);
-                env.push(&n, var(c.clone(), ty.clone()));
+                env.push(&n, var_mut(c.clone(), ty.clone(), i.mutability.is_some()));
                 Ok(c)
             }
             Pat::Tuple(t) => {
@@ -505,6 +640,14 @@ impl<'a> Tr<'a> {
                     }
                     let q = self.bind_pat(&ts.elems[0], &inner, env)?;
                     return Ok(format!("(Some {})", q));
+                }
+                if segs.len() == 1 && (segs[0] == "Ok" || segs[0] == "Err") && ts.elems.len() == 1 {
+                    let inner = match ty {
+                        Ty::Result(a, b) => if segs[0] == "Ok" { (**a).clone() } else { (**b).clone() },
+                        _ => return Err(unsupported(p, &format!("`{}(..)` pattern against {}", segs[0], ty.show()))),
+                    };
+                    let q = self.bind_pat(&ts.elems[0], &inner, env)?;
+                    return Ok(format!("({} {})", if segs[0] == "Ok" { "inl" } else { "inr" }, q));
                 }
                 let (ctor, ftys) = self.variant_or_struct(&ts.path, ty, p)?;
                 if ftys.len() != ts.elems.len() {
@@ -585,7 +728,7 @@ impl<'a> Tr<'a> {
                 if s.ctor == "-" {
                     return Err(unsupported(at, &format!("`{}` has no constructor in the configured mapping", sn)));
                 }
-                return Ok((s.ctor.clone(), s.fields.iter().map(|f| (Some(f.name.clone()), f.ty.clone())).collect()));
+                return Ok((s.ctor.clone(), s.fields.iter().filter(|f| !is_phantom(&f.ty)).map(|f| (Some(f.name.clone()), f.ty.clone())).collect()));
             }
         }
         Err(unsupported(at, &format!("path `{}` is neither a configured enum variant nor a configured struct", segs.join("::"))))
